@@ -103,10 +103,16 @@ class HDF5Cache(BaseFullCache):
             "hdf_file_path": self.__hdf_file.hdf_file_path,
             "hdf_node_path": self.__hdf_node_path,
             "name": self.name,
+            "last_accessed_index": self._last_accessed_index.value,
         }
 
     def __setstate__(self, state: StrKeyMapping) -> None:
+        state = dict(state)
+        last_accessed_index = state.pop("last_accessed_index", None)
         self.__class__.__init__(self, **state)
+        if last_accessed_index is not None:
+            # __init__ points at the newest entry of the file.
+            self._last_accessed_index.value = last_accessed_index
 
     def _copy_empty_cache(self) -> HDF5Cache:
         file_path = Path(self.__hdf_file.hdf_file_path)
